@@ -424,17 +424,17 @@ pub fn run(tier: Tier) -> Report {
         .collect();
     parts.push(json!({"part": "binary-conformance", "sessions": conf.len(), "failing": fc.len()}));
     fails.extend(fc);
-    // a slow client: several MB of responses, nothing is read for 1.5 s (the pipe fills up, the
-    // responder blocks, the channels fill up, the reader loop blocks), then everything is read;
+    // a slow client: about half a MB of responses, nothing is read for 1 s (the pipe fills up, the
+    // responder blocks, the channels fill up, the reader loop blocks), then 2 KiB every 5 ms;
     // every response must arrive, in order, also those queued when shutdown/exit are processed
     {
         let n_procs = 150;
-        let n_reqs = tier.pick(150, 400);
+        let n_reqs = tier.pick(70, 300);
         let (bad, out_bytes) = eval_slow_reader(n_procs, n_reqs);
         execs.fetch_add(1, Ordering::Relaxed);
-        parts.push(json!({"part": "slow-reader", "requests": n_reqs, "response_bytes": out_bytes, "reader_delay_ms": 1500, "failing": bad.is_some() as u32}));
+        parts.push(json!({"part": "slow-reader", "requests": n_reqs, "response_bytes": out_bytes, "reader_delay_ms": 1000, "reader_pace": "2 KiB / 5 ms", "failing": bad.is_some() as u32}));
         if let Some((k, d)) = bad {
-            fails.push(mk(format!("ordering:binary:slow-reader:{}", k), d, json!({"slow_reader": {"procedures": n_procs, "requests": n_reqs, "delay_ms": 1500}, "mode": "process"})));
+            fails.push(mk(format!("ordering:binary:slow-reader:{}", k), d, json!({"slow_reader": {"procedures": n_procs, "requests": n_reqs, "delay_ms": 1000}, "mode": "process"})));
         }
     }
     rep.states = all.len() as u64 + bursts.len() as u64;
@@ -492,12 +492,12 @@ pub fn eval_slow_reader(n_procs: usize, n_reqs: usize) -> (Option<(String, Strin
     s.msgs.push(request(100_000, "shutdown", Value::Null));
     s.msgs.push(notification("exit", Value::Null));
     let bytes: Vec<u8> = s.msgs.iter().flat_map(frame).collect();
-    let o = procdrv::run_slow_reader(bytes, Duration::from_millis(1500), Duration::from_secs(30));
+    let o = procdrv::run_slow_reader(bytes, Duration::from_millis(1000), Some((2048, Duration::from_millis(5))), Duration::from_secs(60));
     let answered: Vec<i64> = o.frames.iter().filter(|f| f.get("method").is_none()).filter_map(|f| f["id"].as_i64()).collect();
     let want: Vec<i64> = std::iter::once(0).chain(ids.iter().cloned()).chain(std::iter::once(100_000)).collect();
     let full = o.frames.iter().filter(|f| f.get("method").is_none() && f["result"].as_array().map(|a| a.len() == n_procs).unwrap_or(false)).count();
     let bad = if o.timed_out {
-        Some(("hang".to_string(), "no exit within 30 s after the client started to read".to_string()))
+        Some(("hang".to_string(), "no exit within 60 s after the client started to read".to_string()))
     } else if let Some(e) = &o.frame_error {
         Some(("malformed-output".to_string(), e.clone()))
     } else if answered != want {
